@@ -137,9 +137,11 @@ public:
    ///    The name of the attribute.
    /// @param[in]  value
    ///    The value for the attribute.
+   /// @return
+   ///    The id of the new attribute, see removeAttributeById().
    /// @since
    ///    1.15.0, 10.10.2018
-   void addAttribute( const std::string& name, const std::string& value);
+   size_t addAttribute( const std::string& name, const std::string& value);
 
    /// Returns the value for an attribute.
    /// If multiple attributes with the same name exist, the values of the last
@@ -159,6 +161,14 @@ public:
    /// @param[in]  attr_name  The name of the attribute to remove.
    /// @since  1.15.0, 11.10.2018
    void removeAttribute( const std::string& attr_name);
+
+   /// Removes exactly the attribute with the given id, as returned by
+   /// addAttribute(). Used by scoped attributes, which must remove their own
+   /// attribute even if another attribute with the same name was added later.
+   /// 
+   /// @param[in]  attr_id  The id of the attribute to remove.
+   /// @since  x.y.z, 01.10.2026
+   void removeAttributeById( size_t attr_id);
 
    /// Dumps information about the logging framework.
    ///
